@@ -17,9 +17,9 @@ RULE = ("case = (estimator, parameters, training data, batch); non-trivial when 
 ASSUMPTIONS = ["float pipelines are compared with rtol=atol=1e-9 (relative to max(1,|row|)), counts and encodings exactly"]
 MIN_NONTRIVIAL = {"quick": 250, "thorough": 2500}
 REQUIRED = {"quick": {"split_checks": 1500, "permutation_checks": 500, "duplicate_checks": 500, "block_chunk_variations": 100, "extreme_neighbour_checks": 200, "estimators_covered": 15,
-                      "bpe_parallel_strings": 100000},
+                      "bpe_parallel_strings": 100000, "bigbatch_rows": 1500},
             "thorough": {"split_checks": 15000, "permutation_checks": 5000, "duplicate_checks": 5000, "block_chunk_variations": 1000, "extreme_neighbour_checks": 2000, "estimators_covered": 15,
-                         "bpe_parallel_strings": 1000000}}
+                         "bpe_parallel_strings": 1000000, "bigbatch_rows": 6000}}
 
 ROWWISE = sorted(n for n, z in zoo.ZOO.items() if z.rowwise)
 GROUPS = [["Ngram", "Skipgram"], ["LZ", "BPE"], ["Histogram", "KDE", "Distribution", "SlidingWindow", "SeqDiff"], ["Wasserstein"], ["Sinkhorn", "ApproxWasserstein"],
@@ -32,6 +32,8 @@ def plan(tier, seed):
     for gi in range(len(GROUPS)):
         jobs.append({"part": "rows", "mode": "JIT", "shards": 1, "args": {"group": gi}, "env": {"NUMBA_NUM_THREADS": ["1", "2", "16"][gi % 3]}, "weight": 5})
     jobs.append({"part": "bpe_threads", "mode": "JIT", "shards": 1, "env": {"NUMBA_NUM_THREADS": "16"}, "weight": 6})
+    for k in range(3):
+        jobs.append({"part": "bigbatch", "mode": "JIT", "shards": 1, "args": {"which": k}, "env": {"NUMBA_NUM_THREADS": "4"}, "weight": 6})
     return jobs
 
 
@@ -218,5 +220,56 @@ def run_bpe_threads(ctx):
     ctx.sample({"bpe_encode_all": "20000 strings x %d repeats, NUMBA_NUM_THREADS=16" % reps})
 
 
-PARTS = {"rows": run, "bpe_threads": run_bpe_threads}
-CHECKS = {"rows": check_case, "bpe_threads": check_case}
+def run_bigbatch(ctx):
+    """Batches larger than the kernels' internal chunk sizes (>= 256 rows per kernel call)."""
+    import scipy.sparse as sp
+    import vectorizers as V
+
+    which = ["LOT_exact", "LOT_sinkhorn", "Sinkhorn"][int(ctx.args["which"])]
+    reps = ctx.pick(2, 8)
+    for rep in range(reps):
+        rs = np.random.RandomState(ctx.seed * 100 + rep)
+        npts, dim, nref = 30, 3, 4
+        n = [600, 520, 777][rep % 3] if which == "LOT_exact" else [300, 257, 513][rep % 3]
+        vec = rs.normal(size=(npts, dim)) + 2.0
+        X = sp.random(n, npts, density=0.15, random_state=rs.randint(1 << 30), format="lil")
+        for i in range(n):
+            if len(X.rows[i]) < 2:
+                for j in rs.choice(npts, 2, replace=False):
+                    X[i, j] = rs.rand() + 0.1
+        X = X.tocsr()
+        metric = ["cosine", "euclidean"][rep % 2]
+        mem = ["100k", "2G", "30k"][rep % 3]
+        kw = dict(n_components=8, reference_size=nref, metric=metric, random_state=5, memory_size=mem)
+        est = V.SinkhornVectorizer(**kw) if which == "Sinkhorn" else V.WassersteinVectorizer(method=which, **kw)
+        case = {"estimator": which, "rows": n, "metric": metric, "memory_size": mem, "rep": rep, "seed": ctx.seed}
+        sigc = ("bigbatch", which, rep)
+        try:
+            est.fit(X[:40], vectors=vec)
+            whole = est.transform(X, vectors=vec)
+            parts = np.vstack([est.transform(X[a : a + 100], vectors=vec) for a in range(0, n, 100)])
+            perm = rs.permutation(n)
+            permd = est.transform(X[perm], vectors=vec)
+        except Exception as e:
+            ctx.violation("C12/%s/bigbatch/raises-%s" % (which, type(e).__name__), "%s: %s" % (type(e).__name__, str(e)[:160]), case, None, sig=sigc)
+            continue
+        ctx.count("bigbatch_rows", n)
+        sc = max(1.0, float(np.abs(parts).max()))
+        tol = (1e-9 if which == "LOT_exact" else 1e-6) * sc
+        if whole.shape != parts.shape:
+            ctx.violation("C12/%s/bigbatch/row-count" % which, "transform of %d rows returned shape %s" % (n, whole.shape), case, None, sig=sigc)
+            continue
+        bad = np.nonzero(np.max(np.abs(whole - parts), axis=1) > tol)[0]
+        if len(bad):
+            ctx.violation("C12/%s/bigbatch/rows-differ-from-100-row-batches" % which, "rows %s of a %d-row batch differ from the same rows transformed in batches of 100" % (bad[:6].tolist(), n), case,
+                          {"max_diff": float(np.max(np.abs(whole - parts))), "zero_rows_in_whole": int((np.abs(whole).sum(1) == 0).sum())}, sig=sigc)
+            continue
+        if np.max(np.abs(permd - whole[perm])) > tol:
+            ctx.violation("C12/%s/bigbatch/permutation-changes-rows" % which, "permuting a %d-row batch changes rows" % n, case, None, sig=sigc)
+            continue
+        ctx.ok(sigc, True)
+    ctx.sample({"bigbatch": which, "rows": "257..777 per batch, compared with 100-row batches and a permutation"})
+
+
+PARTS = {"rows": run, "bpe_threads": run_bpe_threads, "bigbatch": run_bigbatch}
+CHECKS = {"rows": check_case, "bpe_threads": check_case, "bigbatch": check_case}
